@@ -404,8 +404,16 @@ def check_tie(pid, tie, ob, modules):
             ob["axioms"]["Tie." + t] = None
         ob["theorems"] = ob["theorems"] + ["Tie." + t for t in tie["theorems"]]
         return
-    files = [LEAN / (mod.replace(".", "/") + ".lean"), LEAN / "PyresampleModel" / "Gen" / "Prelude.lean",
-             LEAN / "PyresampleModel" / "Gen" / "Src.lean"]
+    files = [LEAN / "PyresampleModel" / "Gen" / "Prelude.lean", LEAN / "PyresampleModel" / "Gen" / "Src.lean"]
+    todo, tie_mods = [mod], []
+    while todo:                                   # the tie module and the tie modules it imports
+        m = todo.pop()
+        if m in tie_mods:
+            continue
+        tie_mods.append(m)
+        f = LEAN / (m.replace(".", "/") + ".lean")
+        files.append(f)
+        todo += re.findall(r"^import (PyresampleModel\.Props\.Tie\w*)", f.read_text(), flags=re.M)
     hits = lean_scan(files)
     if hits:
         ob["scan_hits"] += hits
@@ -418,7 +426,7 @@ def check_tie(pid, tie, ob, modules):
             ob["broken"].append(f"tie theorem {t} not found / audit failed")
         elif not set(ax) <= ALLOWED_AXIOMS:
             ob["broken"].append(f"tie theorem {t} uses axioms {sorted(set(ax) - ALLOWED_AXIOMS)}")
-    modules.append(mod)
+    modules.extend(tie_mods)
     modules.append("PyresampleModel.Gen.Src")
 
 
